@@ -215,6 +215,62 @@ func lossy(seed int64, G, total int, R, T time.Duration, procs int) {
 	}
 }
 
+// ---------------------------------------------------------------- workload 1b
+
+// lossyReal is the loopback slice: the real knx.NewTunnel and the library's
+// own UDP socket talk to the same gateway model through a bridge.
+func lossyReal(seed int64, G, total int, R, T time.Duration) {
+	runtime.GOMAXPROCS(runtime.NumCPU())
+	rng := rand.New(rand.NewSource(seed))
+	sig := fmt.Sprintf("lossy-real-socket G=%d N=%d R=%v T=%v seed=%d", G, total, R, T, seed)
+	r.Crumb("C03 %s", sig)
+	s, err := memsock.NewBridge()
+	if err != nil {
+		r.Inconclusive("bridge: " + err.Error())
+		return
+	}
+	defer s.CloseBridge()
+	gw := gateway.NewGateway(s, gateway.RandomPolicy(rng, 0.10, 0.08, 0.08))
+	can := mon.StartCanary()
+	c, err := tun.StartReal(s, cfg(R, T, false))
+	if err != nil {
+		can.Stop()
+		r.Violate("connect.failed", nil, map[string]interface{}{"signature": sig}, "NewTunnel over loopback failed: %v", err)
+		return
+	}
+	var wg sync.WaitGroup
+	for g := 0; g < G; g++ {
+		wg.Add(1)
+		go func(g int) {
+			defer wg.Done()
+			for i := 0; i < total/G; i++ {
+				c.Send(g, uint32(g*100000+i+1))
+			}
+		}(g)
+	}
+	done := make(chan struct{})
+	go func() { wg.Wait(); close(done) }()
+	select {
+	case <-done:
+	case <-time.After(time.Duration(total)*T + 30*time.Second):
+		r.Violate("sender.hang", map[string]string{"workload": "lossy-real-socket"}, map[string]interface{}{"signature": sig}, "[lossy-real-socket] Sends did not finish within the hang bound")
+		return
+	}
+	gw.Flush()
+	s.Quiesce(2 * time.Second)
+	stall := can.Stop()
+	c.T.Close()
+	st := gw.NetStats()
+	r.Eval(1)
+	r.DistinctStr(sig)
+	faultsSeen["real-socket-dropped"] += int64(st.Dropped)
+	if stall > 250*time.Millisecond {
+		r.Inconclusive(sig + ": scheduler stall")
+		return
+	}
+	report("lossy-real-socket", sig, s.Log(), tun.Params{Resend: R, Timeout: T, Slack: 3*stall + 25*time.Millisecond, EarlyTolerance: time.Millisecond + stall, Bridge: true}, map[string]interface{}{"net": st})
+}
+
 // ---------------------------------------------------------------- workload 2
 
 const nScripts = 10
@@ -546,6 +602,9 @@ func run(rr *mon.Run) {
 		R := []time.Duration{2 * time.Millisecond, 5 * time.Millisecond}[i%2]
 		T := []time.Duration{40 * time.Millisecond, 100 * time.Millisecond}[(i/2)%2]
 		lossy(seed*1000+int64(i), G, 600, R, T, procsList[i%4])
+	}
+	for i := 0; i < r.Pick(2, 40); i++ {
+		lossyReal(seed*1500+int64(i), []int{4, 1, 8}[i%3], 300, 3*time.Millisecond, 60*time.Millisecond)
 	}
 	for i := 0; i < nScripted; i++ {
 		G := []int{1, 4, 2, 8}[i%4]
